@@ -31,7 +31,7 @@ PROPS = {
     'C11': ['dispatch', 'asyncsched', 'registry', 'client', 'loopback'],
     'C12': ['dispatch'],
     'C15': ['registry'],
-    'C07': ['loopback'],
+    'C07': ['loopback', 'asyncsched'],
     'C08': ['client'],
     'C09': ['client'],
     'C19': ['client'],
@@ -206,8 +206,11 @@ def run_check(prop, tier, seed, jobs, t0, build=True):
 
     # ---- 3. failing-input search when an obligation or the correspondence broke ---------------
     searched = 0
+    t_search = time.time()            # one time box for the whole search (60 s quick / 600 s thorough)
     if (broken or diffs) and not [f for f in findings if (f.prop, f.key) not in known]:
-        for suite_name in PROPS[prop]:
+        # suites whose correspondence broke are searched first
+        order = sorted(PROPS[prop], key=lambda n: 0 if any(d['suite'] == n for d in diffs) else 1)
+        for suite_name in order:
             s = _suite(suite_name)
             rng = random.Random(f'{seed}/search/{suite_name}/{prop}')
             extra = []
@@ -216,7 +219,6 @@ def run_check(prop, tier, seed, jobs, t0, build=True):
                     extra += list(s.neighbourhood(d['case'], rng))
             if tier == 'quick':
                 extra += [c for c in s.generate('thorough', rng)][:200000]
-            t_search = time.time()
             for c in extra:
                 if time.time() - t_search > (60 if tier == 'quick' else 600):
                     break
